@@ -131,7 +131,8 @@ func polData() []datamodel.Node {
 		ma.Finish()
 		return nb.Build()
 	}
-	d = append(d, mk(math.NaN()), mk(math.Inf(1)), mk(math.Inf(-1)), mk(math.Copysign(0, -1)), mk(1e308), mk(5e-324))
+	d = append(d, mk(math.NaN()), mk(math.Inf(1)), mk(math.Inf(-1)), mk(math.Copysign(0, -1)), mk(1e308), mk(5e-324),
+		mk(math.MaxFloat64), mk(-math.MaxFloat64), mk(-1e308), mk(-5e-324))
 	return d
 }
 
@@ -140,7 +141,8 @@ func polVals() []datamodel.Node {
 	for _, j := range []string{`5`, `1`, `-1`, `0`, `5.0`, `2.5`, `0.0`, `"abc"`, `"a*b"`, `null`, `true`, `[5,6,7]`, `[]`, `{"b":5}`, `{}`, `9007199254740991`, `[1.5,2.5]`, `{"/":{"bytes":"AQID"}}`} {
 		v = append(v, J(j))
 	}
-	v = append(v, basicnode.NewFloat(math.NaN()), basicnode.NewFloat(math.Inf(1)), basicnode.NewFloat(math.Copysign(0, -1)))
+	v = append(v, basicnode.NewFloat(math.NaN()), basicnode.NewFloat(math.Inf(1)), basicnode.NewFloat(math.Copysign(0, -1)),
+		basicnode.NewFloat(math.MaxFloat64), basicnode.NewFloat(-math.MaxFloat64), basicnode.NewFloat(1e308), basicnode.NewFloat(-1e308), basicnode.NewFloat(math.Inf(-1)))
 	return v
 }
 
@@ -265,6 +267,11 @@ func genPolicy(c *Ctx) {
 				ps[a] = subs[b]
 			}
 			run2("pol/perm-ops", "perm", base, []pstmt{{kind: kind, subs: ps}}, d, d)
+			// the same pair under a negation and inside an enclosing connective, where a change of
+			// result class (not just of pass/fail) becomes visible
+			run2("pol/perm-ops-not", "perm", []pstmt{{kind: "not", subs: base}}, []pstmt{{kind: "not", subs: []pstmt{{kind: kind, subs: ps}}}}, d, d)
+			outer := []string{"and", "or"}[(i+len(pm))%2]
+			run2("pol/perm-ops-nested", "perm", []pstmt{{kind: outer, subs: []pstmt{base[0], subs[0]}}}, []pstmt{{kind: outer, subs: []pstmt{{kind: kind, subs: ps}, subs[0]}}}, d, d)
 		}
 		// one operand removed (and): passing with it implies passing without it
 		for drop := 0; drop < k; drop++ {
@@ -299,6 +306,8 @@ func genPolicy(c *Ctx) {
 		}
 		for _, pm := range perms(k) {
 			run2("pol/perm-elems", "perm", st, st, mkList(id), mkList(pm))
+			nst := []pstmt{{kind: "not", subs: st}}
+			run2("pol/perm-elems-not", "perm", nst, nst, mkList(id), mkList(pm))
 		}
 		stAll := []pstmt{{kind: "all", sel: ".", subs: []pstmt{inner}}}
 		for drop := 0; drop < k; drop++ {
